@@ -64,6 +64,8 @@ func w1GenProp(r *rand.Rand, c *simrt.Case, nclients, maxOps int, prop, tier str
 		}
 	case "C22":
 		w1GenTopics(r, c, nclients, maxOps)
+	case "C24":
+		w1GenACL(r, c, nclients, maxOps)
 	case "C03", "C04":
 		cfg["topics"] = 2
 		cfg["partitions"] = 2
